@@ -25,7 +25,10 @@ def parseCfg (ws : List String) : Option Cfg :=
           else if k = "maxresp" then some { c with maxResp := n }
           else if k = "maxext" then some { c with maxExt := n }
           else if k = "limit" then some { c with batchLimit := n }
-          else if k = "xin" then some { c with extIn := n != 0 }
+          else if k = "xin" then some { c with extIn := n != 0 || c.extOn }  -- a storage config also resolves inputs
+          else if k = "ext" then some { c with extOn := n != 0, extIn := c.extIn || n != 0 }
+          else if k = "thr" then some { c with threshold := if n = 0 then 1048576 else n }
+          else if k = "zstd" then some c
           else if k = "inst" || k = "hdr" then some c
           else none
         | none => none
@@ -39,7 +42,11 @@ def step (st : St) (ws : List String) : St × String :=
     | none, some c => ({ st with cfg := some c, hdr := rest.contains "hdr=1" }, "ok")
     | _, _ => (st, "bad-op")
   | "init" :: inst :: kind :: cancel :: prog :: rest =>
-    let hdr? : Option (Option Nat) := match rest with
+    -- optional words: h<n> (header value), dual (the state's TYPE implements both stream interfaces:
+    -- no effect on the model — dispatch follows the registered method)
+    let rest' := rest.filter (· != "dual")
+    let dualOk := rest.length ≤ rest'.length + 1 && (rest.length = rest'.length || kind = "ex" || kind = "pr")
+    let hdr? : Option (Option Nat) := if !dualOk then none else match rest' with
       | [] => some none
       | [h] => (parseHeaderWord h).map some
       | _ => none
